@@ -310,16 +310,8 @@ theorem closePc1_inv2 (s : State) (p : Nat) (hi : Inv s) (h2 : Inv2 s) : Inv2 (c
           exact pcSame h2 q qc qc hq rfl rfl rfl rfl rfl (fun x => x) (fun x => x) (fun _ _ => rfl)
       · exact h2
 
-theorem closePc_inv2 (s : State) (p : Nat) (hi : Inv s) (h2 : Inv2 s) : Inv2 (closePc s p) := by
-  unfold closePc
-  split
-  · exact h2
-  · split
-    · exact h2
-    · dsimp only
-      split
-      · exact closePc1_inv2 _ _ (closePc1_inv _ _ hi) (closePc1_inv2 _ _ hi h2)
-      · exact closePc1_inv2 _ _ hi h2
+theorem closePc_inv2 (s : State) (p : Nat) (hi : Inv s) (h2 : Inv2 s) : Inv2 (closePc s p) :=
+  closePc1_inv2 s p hi h2
 
 theorem closePcsWhere_inv2 (sel : PConn → Bool) (s : State) (hi : Inv s) (h2 : Inv2 s) :
     Inv2 (closePcsWhere sel s) := by
